@@ -29,4 +29,7 @@ var props = map[string]propCfg{
 	"C04": one(part{Pkg: "./props/static", Test: "TestC04",
 		Quick:    tierCfg{Cases: 96, Shards: 6, Timeout: 10 * min, ShrinkTime: 30 * sec},
 		Thorough: tierCfg{Cases: 1500, Shards: 14, Timeout: 60 * min, ShrinkTime: 5 * min}}),
+	"C13": one(part{Pkg: "./props/process", Test: "TestC13",
+		Quick:    tierCfg{Cases: 8, Shards: 8, Timeout: 15 * min, ShrinkTime: 60 * sec},
+		Thorough: tierCfg{Cases: 64, Shards: 16, Timeout: 90 * min, ShrinkTime: 5 * min}}),
 }
